@@ -78,4 +78,17 @@ PROPS = {
         floors=dict(quick={"fixed.structured": 150, "dim.3": 5000, "dim.2": 500, "dim.6": 500, "mod.one-offdiagonal-entry-zeroed": 500}, thorough={"dim.3": 100000}),
         assumptions=["tolerance is absolute 1e-9 relative to |M|max: the claim is 'a valid decomposition', not last-bit accuracy"],
     ),
+    "C07": dict(
+        harness="h_expm", sources=["expm/main.cpp"], level="exploration",
+        variants=dict(quick=[V("asan", 8, 0.4), V("opt", 8)], thorough=[V("asan", 8, 0.3), V("opt", 12), V("optavx", 4, 0.3)]),
+        rule="n cycles 2..6, family cycles over 11 (anti-Hermitian, Hermitian, normal, dense, upper triangular, nilpotent, rank one, block diagonal, diagonal+small, diagonal, real "
+             "rotation), 1-norm from a mixture: straddling every theta threshold (0.015, 0.254, 0.95, 2.1, 4.25*2^s), uniform in the degree 7/9 band, log-uniform 1e-8..limit "
+             "(1e3 normal families, 30 Hermitian, 50 others); each judged call preceded by 0-5 exponentials of other sizes, half re-evaluated after a different prefix; reference: "
+             "long double scaling+Taylor; accepted iff |err|_1 <= 256*eps*(1+s)(1+|A|_1+cond_exp)*|exp|_1 with cond_exp from Frechet derivatives (power method x n; exact on a quarter "
+             "of thorough cases) and s the squarings reported by the hook; second part: UTransform(V,i*s) value, norm preservation, inversion in d=2..6.",
+        floors=dict(quick={"branch.0": 50, "branch.3": 50, "branch.5": 50, "branch.7": 50, "branch.9": 50, "branch.13": 200, "squarings.0": 200, "squarings.1": 50, "squarings.2": 50, "squarings.3plus": 50,
+                           "branch.9.n2": 3, "branch.13.n2": 10, "utransform.d2": 200, "reevaluated_after_other_history": 500, "judged": 3000},
+                    thorough={"branch.9": 2000, "branch.9.n2": 50, "judged": 100000}),
+        assumptions=["inputs with condition allowance above 1e6 or a non-representable exponential are counted and skipped", "the hook reports branch and squarings; a missing event is a harness error"],
+    ),
 }
